@@ -9,10 +9,12 @@ use std::sync::atomic::{AtomicUsize, Ordering};
 /// Number of heap buffers freed (reported by the `verif-hooks` FREE event).
 pub static FREED: AtomicUsize = AtomicUsize::new(0);
 pub static BOXED: AtomicUsize = AtomicUsize::new(0);
+/// Address of the most recently boxed heap buffer (watched by the harness allocator).
+pub static LAST_BOX: AtomicUsize = AtomicUsize::new(0);
 
 pub fn count_hook(_phase: u8, ev: &mutringbuf::verif::Event) -> Option<usize> {
     if ev.kind == mutringbuf::verif::FREE { FREED.fetch_add(1, Ordering::SeqCst); }
-    if ev.kind == mutringbuf::verif::BOX { BOXED.fetch_add(1, Ordering::SeqCst); }
+    if ev.kind == mutringbuf::verif::BOX { BOXED.fetch_add(1, Ordering::SeqCst); LAST_BOX.store(ev.loc, Ordering::SeqCst); crate::alloc_watch::watch(ev.loc); }
     None
 }
 
